@@ -159,7 +159,11 @@ MLKinds  == {"tabml", "nlonly", "nl2", "leadnl", "indnl"}
 DegLit   == [k \in DegKinds \cup MLKinds |-> "deg:" \o k]
 \* (Minus zero, -0.0, is in the same class: the encoder writes "-0", which
 \* reads back as the integer 0 and is written as "0" the next time.)
-UnwritableV == {DegLit[k] : k \in MLKinds} \cup {"mllist:", "negz:"}
+UnwritableV == {DegLit[k] : k \in MLKinds} \cup {"mllist:", "negz:", "nlkey:"}
+\* "nlkey:" stands for an unknown top-level setting whose KEY is a text the encoder
+\* does not write back faithfully ("\n x\n", with the value 7): the same two outcomes
+\* are admissible as for an unwritable value -- preserved, or an error with the file
+\* unchanged -- and a silently renamed key is neither (seeded change C13-16).
 OddStrs  == "deglist:"
 DotList  == "lit:[\".\",\"a\",1.5]"
 \* Lists of records with elements of different shapes.  The three filter
@@ -633,6 +637,7 @@ DevKinds(v, k) ==
         \* a key the golden file does not have but a later step looks at,
         \* or a key nobody knows
         (IF k \in RecKeys(v) THEN {"recs"} ELSE {}) \cup
+        (IF k = "zz_extra" THEN {"nlkey"} ELSE {}) \cup
         (IF k \in {"zz_extra", "dns.zz_extra", "cl0.zz_extra"} THEN {"str"} \cup MLKinds
          ELSE IF k \in ConcernedFrom(v)
            THEN {"null", "float"} \cup (IF k \in SectionKeys THEN {"empty"} ELSE {})
@@ -695,6 +700,7 @@ DevCell(k, c, kind) ==
       [] kind = "estr" -> C("str", ZS)
       [] kind \in DegKinds \cup MLKinds -> C("str", DegLit[kind])
       [] kind = "mllist" -> C("list", "mllist:")
+      [] kind = "nlkey" -> C("int", "nlkey:")
       [] kind = "fdot" -> C("ifloat", "lit:7")
       [] kind = "fexp" -> C("ifloat", "lit:1000")
       [] kind = "ftag" -> C("ifloat", "lit:5")
